@@ -102,18 +102,18 @@ func newCounters() *Counters {
 
 // Sim is one simulated world.
 type Sim struct {
-	Cfg     Config
-	Flags   Flags
-	Prof    *Profile
-	W       *ecs.World
-	M       *Model
-	ids     [NumTypes]ecs.ID
-	pads    []ecs.ID
+	Cfg   Config
+	Flags Flags
+	Prof  *Profile
+	W     *ecs.World
+	M     *Model
+	ids   [NumTypes]ecs.ID
+	pads  []ecs.ID
 	// rejTargets: targets of batches from whose callback a rejected call was made on the same mapper (value: epoch)
 	rejTargets map[ecs.Entity]int
-	scratch *ecs.World  // a second world of the process (observer objects that served another world)
-	primeW  *ecs.World  // a third world, never modified: type-based relation arguments are used there first
-	resPads []ecs.ResID // dynamically registered resource types (C18)
+	scratch    *ecs.World  // a second world of the process (observer objects that served another world)
+	primeW     *ecs.World  // a third world, never modified: type-based relation arguments are used there first
+	resPads    []ecs.ResID // dynamically registered resource types (C18)
 
 	filters   []*FilterInst
 	queries   []*OpenQuery
